@@ -2,6 +2,7 @@ import JediModel.Lemmas.Tree
 import JediModel.Model.Names
 import JediModel.Lemmas.Names
 import JediModel.Model.ParsoPos
+import JediModel.Lemmas.ScriptParse
 import JediModel.Gen.C17
 /-! C17 — every reported position is faithful to the text.  The API's `line` / `column` are
 the `start_pos` of the parso leaf of the name (`Gen.C17.positionSource`); parso's `start_pos`
@@ -387,6 +388,98 @@ theorem memo_stack_examples :
 theorem source_shape : Gen.C17.namesSortKey = "start_pos" ∧ Gen.C17.positionSource = "self._name.start_pos"
     ∧ Gen.C17.lineCodeIndexOffset = 1 ∧ Gen.C17.lineCodeDefaults = [0, 0]
     ∧ Gen.C17.defRefFilter = "definitions and is_def or (references and (not is_def))" := by decide
+
+/-! ### histories of ONE project file: which tree a Script works on
+
+Every position a Script reports is read off `_module_node`; the text it shows is `_code`.  Both come
+from the parse call of `Script.__init__` (`Model/ScriptParse`): parso answers from caches keyed by
+the path and validated by time stamps.  The property needs `tree = code` for EVERY Script of EVERY
+history of the file: written with any modification time (`mv` of a backup, `cp -p`, two writes in one
+tick), analysed from disk or as an unsaved buffer, in any order, across restarts, and whatever else
+goes through parso's caches for that path (`Op.parse` with any flags: imports use `cache=True`). -/
+
+open JediModel.ScriptParse in
+/-- the `cache=` keyword of the parse call in `Script.__init__` is the constant `False`
+(`"from-disk"`: a name bound to `code is None`; `"always"`: `True`) -/
+theorem script_parse_policy : policyOf Gen.C17.scriptParseCache = some Policy.never := by decide
+
+open JediModel.ScriptParse in
+/-- **script_tree_is_code**: if `Script.__init__` never asks `load_module` (`cache=False`), then in
+every history of the path - any writes with any time stamps, removals, restarts, buffer and disk
+analyses, interleaved cached parses of the same path - every Script works on the tree of exactly the
+text it keeps as `_code`, and that text is the buffer it was given or the content of the file at that
+moment. -/
+theorem script_tree_is_code (cfg : Cfg) (hp : cfg.policy = .never) (w : World) (hw : w.caches.WF)
+    (ops : List Op) (i : Nat) (code : Option Text) (now : Nat) (hop : ops[i]? = some (.script code now))
+    (s : Script) (hs : (run cfg w ops)[i]? = some (some s)) :
+    s.tree = s.code ∧ (∀ t, code = some t → s.code = t) ∧
+      (code = none → ∃ f, (worldAfter cfg w (ops.take i)).file = some f ∧ s.code = f.content) := by
+  refine ⟨run_script_faithful cfg hp ops w hw i code now hop s hs, ?_⟩
+  rw [run_getElem?, hop] at hs
+  simp only [Option.map_some, Option.some.injEq, step] at hs
+  exact scriptInit_code cfg code _ now _ s hs
+
+open JediModel.ScriptParse in
+/-- **script_tree_is_code_source**: the statement for the source as the translator found it, from the
+empty caches of a fresh cache directory -/
+theorem script_tree_is_code_source (ops : List Op) (i : Nat) (code : Option Text) (now : Nat)
+    (hop : ops[i]? = some (.script code now)) (s : Script)
+    (hs : (run (cfgOf Gen.C17.scriptParseCache Gen.C17.scriptDiffCache) {} ops)[i]? = some (some s)) :
+    s.tree = s.code :=
+  (script_tree_is_code _ (by decide) {} Caches.wf_empty ops i code now hop s hs).1
+
+example : ([.write 1 5, .script (some 2) 10, .script none 11] : List JediModel.ScriptParse.Op)[2]?
+    = some (.script none 11) := rfl
+
+open JediModel.ScriptParse in
+/-- **first_analysis_faithful** (any policy): with empty caches the first analysis of a path is
+always faithful - which is why a sweep that analyses every file once sees nothing -/
+theorem first_analysis_faithful (cfg : Cfg) (code : Option Text) (file : Option File) (now : Nat) (s : Script)
+    (hs : (scriptInit cfg code file now {}).1 = some s) : s.tree = s.code := by
+  have hl : ∀ pt, loadModule {} pt = none := by
+    intro pt; cases pt <;> rfl
+  have hg : ∀ c d t pt, (grammarParse c d t pt now {}).1 = t := by
+    intro c d t pt
+    unfold grammarParse
+    cases c <;> cases d <;> simp [hl]
+  unfold scriptInit at hs
+  split at hs
+  · cases hs
+  · simp only [Option.some.injEq] at hs
+    subst hs; exact hg _ _ _ _
+  · simp only [Option.some.injEq] at hs
+    subst hs; exact hg _ _ _ _
+
+/- FULL for an arbitrary policy is false: -/
+open JediModel.ScriptParse in
+/-- **from_disk_cache_counter_witness_buffer**: `cache=<code is None>`: the file holds text 1
+(mtime 5); an editor analyses its unsaved buffer, text 2 (the diff-cache item is stored with the
+FILE's mtime); then the file is analysed from disk: the Script keeps text 1 as `_code` and works on
+the tree of text 2 -/
+theorem from_disk_cache_counter_witness_buffer :
+    run ⟨.fromDisk, true⟩ {} [.write 1 5, .script (some 2) 10, .script none 11]
+      = [none, some ⟨2, 2⟩, some ⟨2, 1⟩] := by decide
+
+open JediModel.ScriptParse in
+/-- **from_disk_cache_counter_witness_backup**: analysed from disk (text 2, mtime 20), an older
+backup is moved back (text 1, mtime 15 - `mv` keeps it), analysed from disk again: tree of text 2;
+the same with an equal mtime, and through the pickle after a restart; a newer mtime is fine -/
+theorem from_disk_cache_counter_witness_backup :
+    run ⟨.fromDisk, true⟩ {} [.write 2 20, .script none 30, .write 1 15, .script none 31]
+      = [none, some ⟨2, 2⟩, none, some ⟨2, 1⟩] ∧
+    run ⟨.fromDisk, true⟩ {} [.write 2 20, .script none 30, .write 1 20, .script none 31]
+      = [none, some ⟨2, 2⟩, none, some ⟨2, 1⟩] ∧
+    run ⟨.fromDisk, false⟩ {} [.write 2 20, .script none 30, .restart, .write 1 25, .script none 31]
+      = [none, some ⟨2, 2⟩, none, none, some ⟨2, 1⟩] ∧
+    run ⟨.fromDisk, true⟩ {} [.write 2 20, .script none 30, .write 1 25, .script none 31]
+      = [none, some ⟨2, 2⟩, none, some ⟨1, 1⟩] ∧
+    run ⟨.never, true⟩ {} [.write 2 20, .script none 30, .write 1 15, .script none 31]
+      = [none, some ⟨2, 2⟩, none, some ⟨1, 1⟩] := by decide
+
+/-- the other constants the model of the parse call was written against -/
+theorem script_parse_shape : Gen.C17.scriptDiffCache = true ∧
+    Gen.C17.parsoMemValid = "p_time <= module_cache_item.change_time" ∧
+    Gen.C17.parsoPickleOutdated = "p_time > os.path.getmtime(cache_path)" := by decide
 
 /-! non-vacuity: a CRLF / form feed / unicode file -/
 def demo : T := .node 0 "file_input" [
